@@ -19,7 +19,8 @@ impl BootdevTag {
     #[must_use]
     pub fn new(biosdev: u32, slice: u32, part: u32) -> Self {
         Self {
-            header: TagHeader::new(Self::ID, mem::size_of::<Self>() as u32),
+            // `size_of::<Self>()` would include the trailing padding.
+            header: TagHeader::new(Self::ID, (mem::size_of::<TagHeader>() + 12) as u32),
             biosdev,
             slice,
             part,
